@@ -281,6 +281,33 @@ theorem ex_realises (e : AppEx) :
       (realises_cons 0 false _ _ [_] _ (stI32_realises 0 false _)
       (realises_one 0 false _ _ (stStop_realises 0 false)))))
 
+/-! ## the headers regenerated from the source are the IDL's (a changed literal in the Go code breaks these) -/
+
+theorem fastWriteHeadersBase_eq : Facts.fastWriteHeadersBase = [(11, 1), (11, 2), (11, 3), (13, 6)] := by decide
+theorem fastWriteHeadersBaseResp_eq : Facts.fastWriteHeadersBaseResp = [(11, 1), (8, 2), (13, 3)] := by decide
+
+theorem stHdr_base0 : stHdr Facts.fastWriteHeadersBase 0 = stFieldBegin 11 1 := by
+  simp [stHdr, fastWriteHeadersBase_eq]
+theorem stHdr_base1 : stHdr Facts.fastWriteHeadersBase 1 = stFieldBegin 11 2 := by
+  simp [stHdr, fastWriteHeadersBase_eq]
+theorem stHdr_base2 : stHdr Facts.fastWriteHeadersBase 2 = stFieldBegin 11 3 := by
+  simp [stHdr, fastWriteHeadersBase_eq]
+theorem stHdr_base3 : stHdr Facts.fastWriteHeadersBase 3 = stFieldBegin 13 6 := by
+  simp [stHdr, fastWriteHeadersBase_eq]
+theorem stHdr_resp0 : stHdr Facts.fastWriteHeadersBaseResp 0 = stFieldBegin 11 1 := by
+  simp [stHdr, fastWriteHeadersBaseResp_eq]
+theorem stHdr_resp1 : stHdr Facts.fastWriteHeadersBaseResp 1 = stFieldBegin 8 2 := by
+  simp [stHdr, fastWriteHeadersBaseResp_eq]
+theorem stHdr_resp2 : stHdr Facts.fastWriteHeadersBaseResp 2 = stFieldBegin 13 3 := by
+  simp [stHdr, fastWriteHeadersBaseResp_eq]
+
+theorem stExtraH_base (thr : Nat) (w : Bool) (extra : Option SMap) (it : SMap) :
+    stExtraH thr w Facts.fastWriteHeadersBase 3 extra it = stExtra thr w 6 extra it := by
+  cases extra <;> simp [stExtraH, stExtra, stHdr_base3]
+theorem stExtraH_resp (thr : Nat) (w : Bool) (extra : Option SMap) (it : SMap) :
+    stExtraH thr w Facts.fastWriteHeadersBaseResp 2 extra it = stExtra thr w 3 extra it := by
+  cases extra <;> simp [stExtraH, stExtra, stHdr_resp2]
+
 /-! ## segment lists print the structs -/
 
 theorem encSegs_kvs (it : SMap) : encSegs (segsKVs it) = encKVs it := by
